@@ -96,14 +96,14 @@ def run(ctx):
     fbs = call_sites(P, lambda c, t: c.get("name") == "from_bytes" and c.get("trait") == "GroupEncoding")
     for fn, bb, t in fbs:
         ctx.ob("E7.from_bytes", fn.key, fn.key in [r.key for r in rs.values()], "GroupEncoding::from_bytes is called from a classified byte reader", where=where(fn, bb))
-    ctx.floor("E7.from_bytes", "checked from_bytes call sites", len(fbs), 3)
+    ctx.floor("E7.from_bytes", "checked from_bytes call sites", len(fbs), 1)
     # 3. serde
     C.check_serde_with_pairs(ctx, P, rule="E9.serde")
     # 4. shares validated at use
     ag = call_sites(P, lambda c, t: c.get("name") == "as_group_element" and c.get("trait") == "Share")
     cg = call_sites(P, lambda c, t: c.get("name") == "combine_shares_group")
     ctx.floor("E7.shares", "Share::as_group_element call sites (detector is live)", len(ag), 3)
-    ctx.floor("E7.shares", "combine_shares_group call sites", len(cg), 3)
+    ctx.floor("E7.shares", "combine_shares_group call sites", len(cg), 1)
     allowed_raw = lambda fn: (fn.impl_trait in ("Share", "ConditionallySelectable", "Default", "TryFrom", "From", "LowerHex", "UpperHex", "Display", "Debug", "Clone", "PartialEq", "Hash", "Ord", "PartialOrd", "Zeroize", "Serialize", "Deserialize", "Eq") and (fn.impl_self_adt or "").startswith("InnerPointShare")) or (fn.impl_trait == "From" and "InnerPointShare" in (fn.impl_trait_ref or "")) or fn.from_expansion
     raw = []
     for fn in P.fns.values():
